@@ -629,7 +629,8 @@ Proof.
     pose proof (wake_blocked_Inv _ Hk) as Hw. destruct (wake_blocked _) as [s'' ow]. exact Hw. }
   destruct ph1 as [s1 o1]. cbn [fst] in H1.
   pose proof (process_Inv (length (cq s1)) s1 H1) as Hp.
-  destruct (process (length (cq s1)) s1) as [s2 o2]. exact Hp.
+  destruct (process (length (cq s1)) s1) as [s2 o2]. cbn [fst] in Hp.
+  exact (wake_blocked_Inv s2 Hp).
 Qed.
 
 Theorem step_Inv s e : Inv s -> ev_ok s e = true -> Inv (fst (step s e)).
@@ -803,7 +804,8 @@ Definition phase1 (s : sys) : sys * list obs :=
 
 Lemma ring_poll_phases s :
   ring_poll s = let '(s1, o1) := phase1 s in
-                let '(s2, o2) := process (length (cq s1)) s1 in (s2, o1 ++ o2).
+                let '(s2, o2) := process (length (cq s1)) s1 in
+                (fst (wake_blocked s2), o1 ++ o2 ++ snd (wake_blocked s2)).
 Proof. reflexivity. Qed.
 
 Lemma kconsume_ops s e : ops (kconsume s e) = ops s.
